@@ -303,10 +303,13 @@ func (q *Queue) run(highestKey uint64) {
 					if err := setHighestKey(tx, req.idx); err != nil {
 						return err
 					}
-					highestKey = req.idx
 				}
 				return nil
 			})
+			if err == nil {
+				// Only a committed transaction has stored the item and the new highest key.
+				highestKey = req.idx
+			}
 			req.respChan <- enqueueResp{err: err}
 			if err == nil && nextEv == nil {
 				if err := loadHead(); err != nil {
